@@ -4,15 +4,15 @@ import json, subprocess, os
 
 CLAIMS = {
  "C01": dict(
-  text="Deductive proof of the refusal and mode-selection half of the wire codec: Encoder.validQuoted equals the quoted-string admissibility predicate for every byte string (length threshold 4096, NUL/CR/LF, 8-bit bytes only with UTF-8 quoting), Encoder.String quotes only admissible strings, stringLiteral/Literal choose '{n}' vs '{n+}' exactly per side and negotiated mode and announce exactly len(s) bytes, isValidFlag equals the flag grammar [\\] 1*ATOM-CHAR, and a malformed flag, malformed mailbox attribute or empty number set is refused with an error before anything is written.",
-  note="unicode.IsControl modelled by its Latin-1 definition (assumed). Not covered (not claimed): decode(encode(v)) == v round-trips (Quoted/Decoder.Quoted inverse, literals, numbers, mailbox UTF-7, nested lists), 'exactly the written bytes are consumed'; the decoder side is under contract only for its error discipline (C02/C06).",
+  text="Deductive proof of the refusal and mode-selection half of the wire codec: Encoder.validQuoted equals the quoted-string admissibility predicate for every byte string (length threshold 4096, NUL/CR/LF, 8-bit bytes only with UTF-8 quoting), Encoder.String quotes only admissible strings, stringLiteral/Literal choose '{n}' vs '{n+}' exactly per side and negotiated mode and announce exactly len(s) bytes, isValidFlag equals the flag grammar [\\] 1*ATOM-CHAR, and a malformed flag, malformed mailbox attribute or empty number set is refused with an error before anything is written. Encoder.Quoted writes exactly the RFC quoted form of s (DQUOTE, each byte in order with '\"' and '\\\\' escaped, DQUOTE) for every byte string (loop invariant over a ghost model of strings.Builder). Numbers: Encoder.Number/Number64/ModSeq write the plain decimal numeral; Decoder.numberStr yields a non-empty run of digits; Decoder.Number/Number64/ModSeq succeed exactly when that run denotes a value that fits (32 / 63 / 64 bits) and then store exactly that value - so decode(encode(v)) == v for numbers, modulo the assumed strconv contract.",
+  note="unicode.IsControl modelled by its Latin-1 definition (assumed); strconv.FormatUint/ParseUint/ParseInt modelled by a decimal-numeral theory (assumed, listed in evidence); strings.Builder modelled by its ghost content (assumed). Not covered (not claimed): the decoder side of quoted strings and literals (Decoder.Quoted/Literal as inverse of the encoder), mailbox UTF-7, nested lists, 'exactly the written bytes are consumed'; apart from numbers the decoder is under contract only for its error discipline (C02/C06).",
   design="§6 C01"),
  "C02": dict(
   text="Deductive proof of the error-propagation and accumulation half of command parsing: every imapwire.Decoder method keeps a recorded error (sticky: never cleared or replaced — rule over all methods, loops included), every Expect* method that reports failure has recorded an error, Decoder.Err returns it, out-parameters are the only cells written (frame obligations); the server's search-key parser reports a failing NOT/OR operand as an error (never success), and after each key every size/date bound is at least as tight as before and the flag lists only grow — with SearchCriteria.And proved to be the exact intersection (C19) this makes multi-key SEARCH arguments arrive un-weakened.",
   note="Callback-taking decoder methods (List, ExpectList, ExpectNList, Func) and the recursive readSearchKey carry assumed (trusted) contracts, listed in evidence. Not covered (not claimed): the client's option-name tables (map-range loops: returnSearchOptions, statusItems, ...) and their agreement with the server's tables, FETCH item/section syntax, byte-level framing between arguments, that back-end calls receive exactly the decoded variables.",
   design="§6 C02"),
  "C04": dict(
-  text="Deductive proof, with a ghost counter of tagged response lines defined by the four functions that put a tag at the start of a line: Conn.readCommand, from any connection state and for every decoder outcome, writes exactly one tagged response when it returns without a connection-level error (at most two if a handler's own completion had been written and only its flush failed); handlers that send their own completion (STARTTLS, AUTHENTICATE, LOGIN, SELECT/EXAMINE, APPEND, COPY) write exactly one on success and none on failure (unless that write itself failed); every other method of Conn writes none; '+' is written by acceptLiteral only for synchronising literals and by IDLE only when authenticated; checkBufferedLiteral refuses sizes above 4096; the decoder's error is sticky and Expect* failures are errors, so a handler never continues parsing after a failed read.",
+  text="Deductive proof, with a ghost counter of tagged response lines defined by the four functions that put a tag at the start of a line: Conn.readCommand, from any connection state and for every decoder outcome, writes exactly one tagged response when it returns without a connection-level error (at most two if a handler's own completion had been written and only its flush failed); handlers that send their own completion (STARTTLS, AUTHENTICATE, LOGIN, SELECT/EXAMINE, APPEND, COPY) write exactly one on success and none on failure (unless that write itself failed); every other method of Conn writes none; '+' is written by acceptLiteral only for synchronising literals and by IDLE only when authenticated; checkBufferedLiteral refuses sizes above 4096; handleAppend never returns with an accepted literal undrained (whatever the back end answered) and reports success only after the command line's CRLF was consumed; the decoder's error is sticky and Expect* failures are errors, so a handler never continues parsing after a failed read.",
   note="KNOWN FINDING (known_findings.txt): a refused literal is neither drained nor made a decoder error (Decoder.Literal/post0). Not covered: well-formedness of each response line (responseEncoder begin/end pairing, partial lines left in the buffer after an encoder error), interleaving of IDLE goroutine output (schedules), the serve loop.",
   design="§6 C04"),
  "C05": dict(
@@ -28,7 +28,7 @@ CLAIMS = {
   note="Mutex operations are no-ops (sequential reading under the lock). Queue-level composition of the per-update inverse lemmas, Poll and the fan-out in MailboxTracker.queueUpdate are not yet under contract.",
   design="§6 C07"),
  "C17": dict(
-  text="Deductive proof of the ordering and outcome of the STARTTLS switch on both sides, as call-site obligations over ghost call records: the server creates the TLS layer only when STARTTLS is permitted (TLS configured, not authenticated, not already TLS — canStartTLS proved exact), only after the tagged OK was written without error and the buffered plaintext was drained (io.CopyN) into a buffer that is the FIRST reader handed to the TLS layer (io.MultiReader argument order); the buffered reader and writer are reset only after the TLS connection exists; on success Conn.conn is a *tls.Conn and both resets happened. The client does the same (drain, buffer first, reset after tls.Client). NewStartTLS returns a client only if startTLS succeeded and the observed state was NotAuthenticated (PREAUTH refused). Credentials are accepted only over TLS or with InsecureAuth (canAuth exact, shared with C05).",
+  text="Deductive proof of the ordering and outcome of the STARTTLS switch on both sides, as call-site obligations over ghost call records: the server creates the TLS layer only when STARTTLS is permitted (TLS configured, not authenticated, not already TLS — canStartTLS proved exact), only after the tagged OK was written without error and the buffered plaintext was drained (io.CopyN) into a buffer that is the FIRST reader handed to the TLS layer (io.MultiReader argument order), that reader exists before the TLS layer does and, whenever plaintext was buffered, the connection handed to tls.Server / tls.Client is the startTLSConn wrapping it; the buffered reader and writer are reset only after the TLS connection exists; on success Conn.conn is a *tls.Conn and both resets happened. The client does the same (drain, buffer first, reset after tls.Client). NewStartTLS returns a client only if startTLS succeeded and the observed state was NotAuthenticated (PREAUTH refused), and completing a STARTTLS command does not change the connection state (completeCommand's transition contract, shared with C12). Credentials are accepted only over TLS or with InsecureAuth (canAuth exact, shared with C05).",
   note="Assumed stdlib behaviour: bufio.Reader.Reset discards buffered data, io.MultiReader reads its arguments in order, tls.Server/tls.Client read only through the given conn, CopyN of Buffered() bytes cannot fail. Not covered: the capability advertisement table (LOGINDISABLED / AUTH=), segmentation timing, that DiscardLine reads nothing after the handler.",
   design="§6 C17"),
  "C18": dict(
@@ -48,12 +48,12 @@ CLAIMS = {
   note="Not covered (not claimed): agreement of STORE/EXPUNGE/MOVE/STATUS/SEARCH/FETCH/LIST results with a reference model, UIDVALIDITY on re-creation, flag set semantics, text/header search (go-message), whole-history equivalence.",
   design="§6 C09"),
  "C11": dict(
-  text="Deductive proof of the sequential, input-dependent part: for every method of imapclient.Client except read and Close (all response parsers and handlers) and for all decoder outcomes (= all server byte streams): no index/slice-bounds violation, failed type assertion, division by zero or reachable explicit panic; message sequence numbers handed to handleFetch/handleExpunge are non-zero and every number added to a SEARCH result set is non-zero (so delivered result sets are static and SearchData.AllSeqNums/AllUIDs cannot panic on them); Range.append (enumeration of result sets) terminates at the uint32 boundary (shared with C15).",
-  note="Nil-dereference freedom not claimed. Three type assertions that follow findPendingCmdFunc with a type-testing predicate and three panics guarding API misuse / stdlib contracts are assumed with the reason stated in the contract file. Not covered: recursion depth of readBody/readThreadList, ESEARCH/COPYUID dynamic-set rejection, time/memory growth, the reader goroutine's recover, accessor methods other than AllSeqNums/AllUIDs.",
+  text="Deductive proof of the sequential, input-dependent part: for every method of imapclient.Client except read and Close (all response parsers and handlers) and for all decoder outcomes (= all server byte streams): no index/slice-bounds violation, failed type assertion, division by zero or reachable explicit panic; message sequence numbers handed to handleFetch/handleExpunge are non-zero and every number added to a SEARCH result set is non-zero (so delivered result sets are static and SearchData.AllSeqNums/AllUIDs cannot panic on them); a COPYUID response code and an ESEARCH ALL result are delivered only if their sets are not open-ended (no '*'), so their accessors can enumerate them; the routing predicate of untagged STATUS dereferences no missing LIST entry (nil obligations enabled for that closure); Range.append (enumeration of result sets) terminates at the uint32 boundary (shared with C15).",
+  note="Nil-dereference freedom not claimed. Three type assertions that follow findPendingCmdFunc with a type-testing predicate and three panics guarding API misuse / stdlib contracts are assumed with the reason stated in the contract file. Not covered: recursion depth of readBody/readThreadList, time/memory growth, the reader goroutine's recover, accessor methods other than AllSeqNums/AllUIDs.",
   design="§6 C11"),
  "C12": dict(
-  text="Deductive proof that the client's mirror handlers update exactly the field the response names, from an arbitrary client state: handleExists sets only the message count, handleExpunge decrements only the count (not below zero), handleFlags replaces only the flag list (permanent flags, count and name unchanged), each only in the selected state and leaving the connection state unchanged; setState clears the summary exactly when leaving the selected state.",
-  note="Object invariant assumed at entry: state == Selected <=> mailbox != nil. Mutexes are no-ops. Not covered: routing of untagged data among pending commands, exactly-once completion (readResponseTagged/completeCommand), PERMANENTFLAGS/CLOSED branches, interleavings with beginCommand (schedules).",
+  text="Deductive proof that the client's mirror handlers update exactly the field the response names, from an arbitrary client state: handleExists sets only the message count, handleExpunge decrements only the count (not below zero), handleFlags replaces only the flag list (permanent flags, count and name unchanged), each only in the selected state and leaving the connection state unchanged; setState clears the summary exactly when leaving the selected state; readResponseData as a whole changes the mirror's flag list only through handleFlags, its message count only through handleExists/handleExpunge and never its name (so a PERMANENTFLAGS code leaves them alone); completeCommand performs exactly the completed command's transition (none on failure, none for commands other than LOGIN/AUTHENTICATE/UNAUTHENTICATE/SELECT/UNSELECT/LOGOUT); an untagged STATUS is routed by a predicate proved equal to 'pending STATUS for that mailbox, or pending LIST-STATUS whose current entry is that mailbox'.",
+  note="Object invariant assumed at entry: state == Selected <=> mailbox != nil. Mutexes are no-ops; the goroutine setCaps may start is outside the sequential contract. Not covered: routing predicates of the other untagged responses (FETCH, LIST, SEARCH, ...), exactly-once completion (readResponseTagged), interleavings with beginCommand (schedules).",
   design="§6 C12"),
  "C15": dict(
   text="Deductive proof (govc: weakest-precondition VCs over go/ssa of the real code, contracts in internal/imapnum/contracts_verif.go, discharged by z3/cvc5) that Range.Contains/Less/Merge equal their mathematical specification for all uint32 inputs incl. 2^32-1 and '*', that Set.search/Contains/Dynamic are correct on every canonical set (unbounded length), and that Range.append terminates and yields exactly the members in ascending order.",
